@@ -13,6 +13,31 @@ static long n_req, n_malloc, n_realloc, n_free, n_live, n_live_bytes, n_refused;
 static int sched_mode; static long sched_k; static char sched_bits[4096];
 static size_t cap_bytes; static size_t last_req_size;
 
+/* ---- backing store: libc by default; HALLOC=arena: two bump arenas with no libc backing at all (a stray libc free/realloc of an
+   arena pointer is fatal in glibc), the first of which can be write-protected while read-only operations run (C18);
+   HALLOC=none: any request is fatal (the "allocates nothing" clause of C13) ---- */
+#include <sys/mman.h>
+#define ARENA_SIZE (1UL << 30)
+static unsigned char *arenaA, *arenaB; static size_t usedA, usedB; static int arena_mode, none_mode, protected_;
+static void die(const char* what, const void* p);
+static void* raw_alloc(size_t n) {
+  if (none_mode) die("allocation requested while none may be", 0);
+  if (!arena_mode) return malloc(n);
+  n = (n + 15) & ~(size_t)15;
+  unsigned char* p;
+  if (protected_) { p = arenaB + usedB; usedB += n; if (usedB > ARENA_SIZE) die("arena B exhausted", 0); }
+  else { p = arenaA + usedA; usedA += n; if (usedA > ARENA_SIZE) die("arena A exhausted", 0); }
+  return p;
+}
+static void raw_free(void* p) { if (!arena_mode) free(p); }
+void h_arena_protect(int on) {
+  if (!arena_mode) return;
+  size_t len = (usedA + 4095) & ~(size_t)4095;
+  if (len && mprotect(arenaA, len, on ? PROT_READ : PROT_READ | PROT_WRITE) != 0) die("mprotect failed", arenaA);
+  protected_ = on;
+}
+int h_arena_mode(void) { return arena_mode; }
+
 static int refuse_now(size_t size) {
   long idx = n_req++;
   last_req_size = size;
@@ -33,7 +58,7 @@ static void die(const char* what, const void* p) {
 static void* h_malloc(size_t size) {
   n_malloc++;
   if (refuse_now(size)) return NULL;
-  struct hdr* h = malloc(sizeof(struct hdr) + size);
+  struct hdr* h = raw_alloc(sizeof(struct hdr) + size);
   if (!h) die("libc malloc failed", 0);
   h->magic = MAGIC_LIVE; h->size = size;
   n_live++; n_live_bytes += (long)size;
@@ -46,7 +71,7 @@ static void h_free(void* p) {
   if (h->magic != MAGIC_LIVE) die(h->magic == MAGIC_DEAD ? "double free" : "free of foreign pointer", p);
   h->magic = MAGIC_DEAD;
   n_live--; n_live_bytes -= (long)h->size;
-  free(h);
+  raw_free(h);
 }
 static void* h_realloc(void* p, size_t size) {
   n_realloc++;
@@ -56,22 +81,32 @@ static void* h_realloc(void* p, size_t size) {
   }
   if (refuse_now(size)) return NULL;
   if (p == NULL) {
-    struct hdr* h = malloc(sizeof(struct hdr) + size);
+    struct hdr* h = raw_alloc(sizeof(struct hdr) + size);
     if (!h) die("libc malloc failed", 0);
     h->magic = MAGIC_LIVE; h->size = size; n_live++; n_live_bytes += (long)size;
     return h + 1;
   }
   struct hdr* h = (struct hdr*)p - 1;
   /* always move, so stale pointers into the old block are caught by ASan */
-  struct hdr* nh = malloc(sizeof(struct hdr) + size);
+  struct hdr* nh = raw_alloc(sizeof(struct hdr) + size);
   if (!nh) die("libc malloc failed", 0);
   nh->magic = MAGIC_LIVE; nh->size = size;
   memcpy(nh + 1, h + 1, h->size < size ? h->size : size);
   n_live_bytes += (long)size - (long)h->size;
-  h->magic = MAGIC_DEAD; free(h);
+  h->magic = MAGIC_DEAD; raw_free(h);
   return nh + 1;
 }
-void h_alloc_install(void) { cbor_set_allocs(h_malloc, h_realloc, h_free); }
+void h_alloc_install(void) {
+  const char* m = getenv("HALLOC");
+  if (m && !strcmp(m, "arena")) {
+    arena_mode = 1;
+    arenaA = mmap(NULL, ARENA_SIZE, PROT_READ | PROT_WRITE, MAP_PRIVATE | MAP_ANONYMOUS | MAP_NORESERVE, -1, 0);
+    arenaB = mmap(NULL, ARENA_SIZE, PROT_READ | PROT_WRITE, MAP_PRIVATE | MAP_ANONYMOUS | MAP_NORESERVE, -1, 0);
+    if (arenaA == MAP_FAILED || arenaB == MAP_FAILED) die("mmap failed", 0);
+  }
+  cbor_set_allocs(h_malloc, h_realloc, h_free);
+}
+void h_alloc_forbid(int on) { none_mode = on; }
 long h_alloc_requests(void) { return n_req; }
 long h_alloc_live(void) { return n_live; }
 long h_alloc_live_bytes(void) { return n_live_bytes; }
